@@ -138,13 +138,19 @@ def check_cf_interpolate(ctx):
     if not isinstance(out, Obj):
         ctx.undecided('CFG-7', 'ConvolvedFluxes.interpolate', where_, 'result not modelled: %r' % (out,))
     else:
+        from ..roundtrip import TrialCtx
         for attr, tab in (('_flux', sym('flux', M, A)), ('_error', sym('err', M, A))):
             ref = mk_fn('lininterp', P(qc / U), B(A, cap / U), B(A, tab))
             # side conditions: the table minimum is not above its maximum, and (the refusal below the table being a precondition, checked on its own) no request is below the minimum
             mn = mk_fn('min', B(A, cap))
             side = alg.Facts().assume_le(mn, mx).assume_le(mn, q)
-            compare(ctx, 'CFG-7', 'ConvolvedFluxes.interpolate %s' % attr.lstrip('_'), where_, out.attrs.get(attr), ref, (M, D), side, vocab=VOCAB, fns=FNS, findings=[f for f in I.findings if f.kind == 'label-clash'],
+            inst = 'ConvolvedFluxes.interpolate %s' % attr.lstrip('_')
+            t = TrialCtx(ctx)
+            compare(t, 'CFG-7', inst, where_, out.attrs.get(attr), ref, (M, D), side, vocab=VOCAB, fns=FNS, findings=[f for f in I.findings if f.kind == 'label-clash'],
                     detail_ok='linear interpolant of the %s table at min(request, table maximum), abscissa and query in the table\'s unit' % attr.lstrip('_'))
+            if t.n_undecided and not t.n_violations and lookup_by_regions(ctx, 'CFG-7', inst, where_, fi, mk, attr, tab, cap):
+                continue          # a look-up the whole-table comparison does not read (written by hand, say): decided on tables of two and three apertures, region by region
+            t.commit()
         compare(ctx, 'CFG-7', 'ConvolvedFluxes.interpolate apertures of the result', where_, out.attrs.get('_apertures'), qc, (D,), vocab=VOCAB, fns=FNS, detail_ok='the (clamped) request')
         compare(ctx, 'CFG-7', 'ConvolvedFluxes.interpolate model names', where_, out.attrs.get('_model_names'), sym('names', M), (M,), vocab=VOCAB, fns=FNS, detail_ok='copied unchanged')
         compare(ctx, 'CFG-7', 'ConvolvedFluxes.interpolate central wavelength', where_, out.attrs.get('_wavelength'), sym('cw'), (), vocab=VOCAB, fns=FNS, detail_ok='copied unchanged')
@@ -171,6 +177,33 @@ def check_cf_interpolate(ctx):
         gs = [g for g in Is.assumed if g[4] == 'raise-guard']
         ctx.expect(not gs, 'CFG-7', 'ConvolvedFluxes.interpolate single-aperture table accepts every radius', where_, 'no request is refused when the table has one aperture',
                    'a single-aperture table refuses requests: raise guarded by %s' % (gs[0][2] if gs else ''), 'single-refuses')
+
+
+def lookup_by_regions(ctx, rule, inst, where_, fi, mk, attr, tab, cap):
+    """the interpolation decided on tables of two and three increasing apertures: on every knot, strictly between neighbours and above the last knot the
+    value is compared with the definition (knots.py); True when every region of every table size was decided (the verdicts are then recorded)"""
+    from .. import knots
+    au = sym('unit:au')
+    q = sym('q', D)
+    verdicts = []
+    for n in (2, 3):
+        I = Interp(ctx.repo, H())
+        I.axis_len[A] = n
+        I.exact_le = True          # a request may lie exactly on a tabulated aperture: <= and < are kept apart
+        out = I.call(fi, [symarr('q', (D,), unit=au)], selfv=mk())
+        v = out.attrs.get(attr) if isinstance(out, Obj) else None
+        if not isinstance(v, Arr) or v.mask is not None or tuple(v.dims) != (M, D) or I.lost or [f for f in I.findings if f.kind == 'label-clash']:
+            return False
+        rs = knots.decide_lookup(v.poly, q, cap, tab, A, n, qlabel=D)
+        if any(r[1] is None for r in rs):
+            return False
+        verdicts.append((n, rs))
+    for n, rs in verdicts:
+        bad = [(name, det) for name, okk, det in rs if not okk]
+        ctx.expect(not bad, rule, '%s, table of %d apertures, request %s' % (inst, n, ' / '.join(name for name, _, _ in rs)), where_,
+                   'the tabulated value on every aperture, the chord between neighbours, the last value above the table',
+                   '; '.join('request %s: %s' % b for b in bad[:2]), 'lookup-regions')
+    return True
 
 
 def run(ctx):
@@ -458,6 +491,7 @@ def variable_details(ctx, pre=None):
 CF = 'sedfitter/convolved_fluxes/convolved_fluxes.py'
 SE = 'sedfitter/sed/sed.py'
 MUST_FIRE = [
+    ('look-up written as a loop over half-open aperture intervals: a request on the largest aperture falls in none', [(CF, '            flux_interp = interp1d(self.apertures, self.flux)\n            c.flux = flux_interp(new_apertures) * self.flux.unit\n\n            # The following is not strictly correct - errors from interpolation is not interpolation of errors\n            error_interp = interp1d(self.apertures, self.error)\n            c.error = error_interp(new_apertures) * self.error.unit\n', '            ap_old = self.apertures.value\n            ap_new = new_apertures.value\n            tables = []\n            for values in (self.flux.value, self.error.value):\n                result = np.zeros((values.shape[0], len(ap_new)))\n                for ia in range(len(ap_old) - 1):\n                    calc = (ap_new >= ap_old[ia]) & (ap_new < ap_old[ia + 1])\n                    frac = (ap_new[calc] - ap_old[ia]) / (ap_old[ia + 1] - ap_old[ia])\n                    result[:, calc] = values[:, ia, np.newaxis] + (values[:, ia + 1] - values[:, ia])[:, np.newaxis] * frac[np.newaxis, :]\n                tables.append(result)\n            c.flux = tables[0] * self.flux.unit\n            c.error = tables[1] * self.error.unit\n')]),
     ('single-aperture SED tiled instead of repeated', [(SE, "return np.repeat(self.flux[0, :], len(apertures)).reshape(self.n_wav, len(apertures))", "return np.tile(self.flux[0, :], len(apertures)).reshape(self.n_wav, len(apertures))")]),
     ('aperture curve through np.interp without sorting the filters', [(SE, "        # Find wavelength order\n        order = np.argsort(wavelengths)\n\n        # Interpolate apertures vs wavelength\n        log10_ap_interp = interp1d(np.log10(wavelengths[order]), np.log10(apertures[order]), bounds_error=False, fill_value=np.nan)\n", ""), (SE, "        # Interpolate the apertures\n        apertures = 10. ** log10_ap_interp(np.log10(sed_wav))\n\n        # Extrapolate on either side\n        apertures[np.log10(sed_wav) < log10_ap_interp.x[0]] = 10. ** log10_ap_interp.y[0]\n        apertures[np.log10(sed_wav) > log10_ap_interp.x[-1]] = 10. ** log10_ap_interp.y[-1]\n", "        apertures = 10. ** np.interp(np.log10(sed_wav), np.log10(wavelengths), np.log10(apertures))\n")]),
     ('D21 reverted: clamped request converted back to the table unit before the bounds-checked look-up', [(CF, "new_apertures = np.clip(c.apertures.to(self.apertures.unit), self.apertures.min(), self.apertures.max())", "new_apertures = c.apertures.to(self.apertures.unit)")]),
@@ -491,6 +525,7 @@ MUST_FIRE = [
                                                "        if np.any(apertures < sed_apertures.min()):\n            raise Exception(\"Aperture(s) requested too small\")\n\n        result = flux_interp(apertures)\n        apertures[apertures > sed_apertures.max()] = sed_apertures.max()\n        return result")]),
 ]
 MUST_SILENT = [
+    ('look-up written as a loop over half-open aperture intervals, the largest aperture set on its own', [(CF, '            flux_interp = interp1d(self.apertures, self.flux)\n            c.flux = flux_interp(new_apertures) * self.flux.unit\n\n            # The following is not strictly correct - errors from interpolation is not interpolation of errors\n            error_interp = interp1d(self.apertures, self.error)\n            c.error = error_interp(new_apertures) * self.error.unit\n', '            ap_old = self.apertures.value\n            ap_new = new_apertures.value\n            tables = []\n            for values in (self.flux.value, self.error.value):\n                result = np.zeros((values.shape[0], len(ap_new)))\n                for ia in range(len(ap_old) - 1):\n                    calc = (ap_new >= ap_old[ia]) & (ap_new < ap_old[ia + 1])\n                    frac = (ap_new[calc] - ap_old[ia]) / (ap_old[ia + 1] - ap_old[ia])\n                    result[:, calc] = values[:, ia, np.newaxis] + (values[:, ia + 1] - values[:, ia])[:, np.newaxis] * frac[np.newaxis, :]\n                result[:, ap_new == ap_old[-1]] = values[:, -1, np.newaxis]\n                tables.append(result)\n            c.flux = tables[0] * self.flux.unit\n            c.error = tables[1] * self.error.unit\n')]),
     ('single-aperture SED repeated along a new axis', [(SE, "return np.repeat(self.flux[0, :], len(apertures)).reshape(self.n_wav, len(apertures))", "return np.repeat(self.flux[0, :, np.newaxis], len(apertures), axis=1)")]),
     ('aperture curve through np.interp on the sorted filters', [(SE, "        # Find wavelength order\n        order = np.argsort(wavelengths)\n\n        # Interpolate apertures vs wavelength\n        log10_ap_interp = interp1d(np.log10(wavelengths[order]), np.log10(apertures[order]), bounds_error=False, fill_value=np.nan)\n", "        order = np.argsort(wavelengths)\n"), (SE, "        # Interpolate the apertures\n        apertures = 10. ** log10_ap_interp(np.log10(sed_wav))\n\n        # Extrapolate on either side\n        apertures[np.log10(sed_wav) < log10_ap_interp.x[0]] = 10. ** log10_ap_interp.y[0]\n        apertures[np.log10(sed_wav) > log10_ap_interp.x[-1]] = 10. ** log10_ap_interp.y[-1]\n", "        apertures = 10. ** np.interp(np.log10(sed_wav), np.log10(wavelengths[order]), np.log10(apertures[order]))\n")]),
     ('interp1d left to sort the aperture curve itself', [(SE, "interp1d(np.log10(wavelengths[order]), np.log10(apertures[order]), bounds_error=False, fill_value=np.nan)", "interp1d(np.log10(wavelengths), np.log10(apertures), bounds_error=False, fill_value=np.nan)")]),
